@@ -633,10 +633,12 @@ Definition w_d03 : circuit :=
   Circ [clsG; clsC] [Node 0 (q 1); Node 0 (q 3); Node 1 (q 1)] [Edge 0 2 (Some (q 1)) false; Edge 1 2 (Some (q 1)) true].
 Definition st_d03 : list Qc := [q 1; q 2; q 5].
 
-Lemma refuted_source_var :
+Lemma refuted_source_var_before_D59 :
   wf w_d03 = true /\ no_constant_rhs w_d03 = true /\ no_scalar_fanout w_d03 = true /\
   single_source_var w_d03 = false /\
-  impl false w_d03 st_d03 = Some (spec w_d03 st_d03) /\ impl true w_d03 st_d03 <> Some (spec w_d03 st_d03).
+  impl_before_D59 false w_d03 st_d03 = Some (spec w_d03 st_d03) /\ impl_before_D59 true w_d03 st_d03 <> Some (spec w_d03 st_d03) /\
+  (* the repaired merge key agrees with the edge list on the same input *)
+  guard w_d03 = true /\ impl true w_d03 st_d03 = Some (spec w_d03 st_d03).
 Proof. witness. Qed.
 
 (* D21 (corpus/C04/D21_constant_rhs.json): x' = -1 - x + x on two nodes: Err when vectorized, fine otherwise *)
@@ -663,12 +665,12 @@ Definition full_statement : Prop := forall c st, wf c = true -> length st = leng
 
 Lemma full_statement_refuted : ~ full_statement.
 Proof.
-  intros F. destruct (F w_d03 st_d03) as [H _]; [vm_compute; reflexivity|reflexivity|].
-  destruct refuted_source_var as (_ & _ & _ & _ & _ & N). exact (N H).
+  intros F. destruct (F w_d21 [q 1; q 2]) as [H _]; [vm_compute; reflexivity|reflexivity|].
+  destruct err_constant_rhs as (_ & _ & N & _). rewrite N in H. discriminate.
 Qed.
 
 (* the end-to-end statement under the guards.  Proved below (section 11) up to the two loud classes: `impl_sound`
-   (whenever Impl does not raise it equals Spec, under wf and single_source_var) and `guarded_from_no_err`. *)
+   (whenever Impl does not raise it equals Spec, under wf alone since fix D59) and `guarded_from_no_err`. *)
 Definition guarded_statement : Prop := forall c st, wf c = true -> guard c = true -> length st = length (cnodes c) ->
   impl true c st = Some (spec c st) /\ impl false c st = Some (spec c st).
 
@@ -751,7 +753,8 @@ Section Monoid.
   Proof. intros. unfold group_edges. rewrite gG_fold by constructor. cbn [gG gsum]. apply op_e_l. Qed.
 
   (* the same for the merged per-source lists *)
-  Definition gM (psi : nat -> triple -> M) (l : list mrg) : M := gsum (fun m => gsum (psi (msrc m)) (mtriples m)) l.
+  Definition gM (psi : nat -> bool -> triple -> M) (l : list mrg) : M :=
+    gsum (fun m => gsum (psi (msrc m) (msv m)) (mtriples m)) l.
 
   Lemma zip3_app : forall w1 s1 t1 w2 s2 t2, length w1 = length s1 -> length s1 = length t1 ->
     zip3 (w1 ++ w2) (s1 ++ s2) (t1 ++ t2) = zip3 w1 s1 t1 ++ zip3 w2 s2 t2.
@@ -761,32 +764,34 @@ Section Monoid.
   Qed.
 
   Lemma gM_add_merge : forall psi l g, Forall aligned_m l ->
-    gM psi (add_merge l g) = op (gM psi l) (gsum (psi (gsrc g)) (gtriples g)).
+    gM psi (add_merge true l g) = op (gM psi l) (gsum (psi (gsrc g) (gsv g)) (gtriples g)).
   Proof.
     unfold gM. induction l as [|m l IH]; intros g H; cbn [add_merge gsum].
-    - unfold mtriples. cbn [msrc mw ms mt]. fold (gtriples g). rewrite op_e_l, op_e_r. reflexivity.
-    - inversion H as [|? ? Hm Hl]; subst. destruct (Nat.eqb_spec (msrc m) (gsrc g)) as [E|E].
-      + cbn [gsum msrc]. unfold mtriples at 1. cbn [mw ms mt]. destruct Hm as [A B].
-        rewrite zip3_app by assumption. fold (mtriples m). fold (gtriples g). rewrite gsum_app. rewrite E. apply op_swap.
+    - unfold mtriples. cbn [msrc msv mw ms mt]. fold (gtriples g). rewrite op_e_l, op_e_r. reflexivity.
+    - inversion H as [|? ? Hm Hl]; subst. destruct (same_input true m g) eqn:S.
+      + unfold same_input in S. cbn [negb orb] in S. apply andb_true_iff in S as [S1 S2].
+        apply Nat.eqb_eq in S1. apply eqb_prop in S2.
+        cbn [gsum msrc msv]. unfold mtriples at 1. cbn [mw ms mt]. destruct Hm as [A B].
+        rewrite zip3_app by assumption. fold (mtriples m). fold (gtriples g). rewrite gsum_app. rewrite S1, S2. apply op_swap.
       + cbn [gsum]. rewrite IH by exact Hl. apply op_assoc.
   Qed.
 
-  Lemma add_merge_aligned : forall l g, Forall aligned_m l -> aligned g -> Forall aligned_m (add_merge l g).
+  Lemma add_merge_aligned : forall bv l g, Forall aligned_m l -> aligned g -> Forall aligned_m (add_merge bv l g).
   Proof.
     induction l as [|m l IH]; intros g H Hg; cbn [add_merge].
     - constructor; [|constructor]. exact Hg.
-    - inversion H as [|? ? Hm Hl]; subst. destruct (msrc m =? gsrc g).
+    - inversion H as [|? ? Hm Hl]; subst. destruct (same_input bv m g).
       + constructor; [|exact Hl]. destruct Hm as [A B], Hg as [C D]. split; cbn [mw ms mt]; rewrite !app_length; lia.
       + constructor; [exact Hm|apply IH; assumption].
   Qed.
 
   Lemma gM_fold : forall psi L l, Forall aligned_m l -> Forall aligned L ->
-    Forall aligned_m (fold_left add_merge L l) /\
-    gM psi (fold_left add_merge L l) = op (gM psi l) (gsum (fun g => gsum (psi (gsrc g)) (gtriples g)) L).
+    Forall aligned_m (fold_left (add_merge true) L l) /\
+    gM psi (fold_left (add_merge true) L l) = op (gM psi l) (gsum (fun g => gsum (psi (gsrc g) (gsv g)) (gtriples g)) L).
   Proof.
     induction L as [|g L IH]; intros l H HL; cbn [fold_left gsum]; [split; [exact H|rewrite op_e_r; reflexivity]|].
     inversion HL as [|? ? Hg HL']; subst.
-    destruct (IH (add_merge l g) (add_merge_aligned l g H Hg) HL') as [A B]. split; [exact A|].
+    destruct (IH (add_merge true l g) (add_merge_aligned true l g H Hg) HL') as [A B]. split; [exact A|].
     rewrite B, gM_add_merge by exact H. rewrite <- op_assoc. reflexivity.
   Qed.
 End Monoid.
@@ -875,25 +880,6 @@ Proof.
   exists e. split; [apply Hs; left; reflexivity|reflexivity].
 Qed.
 
-(* _collect_from_edges keeps the source variable of the first group of a source: harmless when all groups of that
-   source agree on it *)
-Lemma add_merge_sv : forall (svf : nat -> bool) l g, Forall (fun m => msv m = svf (msrc m)) l -> gsv g = svf (gsrc g) ->
-  Forall (fun m => msv m = svf (msrc m)) (add_merge l g).
-Proof.
-  induction l as [|m l IH]; intros g H Hg; cbn [add_merge].
-  - constructor; [exact Hg|constructor].
-  - inversion H as [|? ? Hm Hl]; subst. destruct (msrc m =? gsrc g).
-    + constructor; [exact Hm|exact Hl].
-    + constructor; [exact Hm|apply IH; assumption].
-Qed.
-
-Lemma merge_fold_sv : forall (svf : nat -> bool) L l, Forall (fun m => msv m = svf (msrc m)) l ->
-  Forall (fun g => gsv g = svf (gsrc g)) L -> Forall (fun m => msv m = svf (msrc m)) (fold_left add_merge L l).
-Proof.
-  induction L as [|g L IH]; intros l H HL; cbn [fold_left]; [exact H|].
-  inversion HL; subst. apply IH; [apply add_merge_sv; assumption|assumption].
-Qed.
-
 (* instances: (Qc, +, 0) and (bool, ||, false) *)
 Definition qG {A} := @gsum Qc Qcplus 0 A.
 Definition bG {A} := @gsum bool orb false A.
@@ -962,14 +948,6 @@ Proof.
   apply andb_true_iff in W as [A B]. apply Nat.ltb_lt in A, B. split; assumption.
 Qed.
 
-Lemma ssv_edges : forall c e1 e2, single_source_var c = true -> In e1 (cedges c) -> In e2 (cedges c) ->
-  cls_of c (esrc e1) = cls_of c (esrc e2) -> cls_of c (etgt e1) = cls_of c (etgt e2) -> esv e1 = esv e2.
-Proof.
-  intros c e1 e2 S H1 H2 A B. unfold single_source_var in S. rewrite forallb_forall in S.
-  specialize (S e1 H1). rewrite forallb_forall in S. specialize (S e2 H2).
-  rewrite A, B, !Nat.eqb_refl in S. cbn in S. apply eqb_prop. exact S.
-Qed.
-
 Section Compose.
   Variable vec : bool.
   Variable c : circuit.
@@ -978,7 +956,6 @@ Section Compose.
   Variable rs : list (nat * (nat * nat)).
   Hypothesis CA : cache_all [] (keys vec c) 0 = (vn, rs).
   Hypothesis WF : wf c = true.
-  Hypothesis SSV : single_source_var c = true.
 
   Let ix := idx_of rs.
   Let es := cedges c.
@@ -999,10 +976,7 @@ Section Compose.
   Let i := snd (ix n).
   Let groups := group_edges ix es.
   Let L := filter (fun g => gtgt g =? j) groups.
-  Let ml := merged j groups.
-
-  Definition svf (sj : nat) : bool :=
-    match find (fun e => (fst (ix (esrc e)) =? sj) && (fst (ix (etgt e)) =? j)) es with Some e => esv e | None => false end.
+  Let ml := merged true j groups.
 
   Lemma tgt_match : forall e, In e es ->
     ((fst (ix (etgt e)) =? j) && (snd (ix (etgt e)) =? i)) = (etgt e =? n).
@@ -1023,29 +997,9 @@ Section Compose.
     pose proof (group_edges_aligned ix es) as A. rewrite Forall_forall in A. apply A. exact Hg.
   Qed.
 
-  Lemma L_sv : Forall (fun g => gsv g = svf (gsrc g)) L.
+  Lemma ml_aligned : Forall aligned_m ml.
   Proof.
-    apply Forall_forall. intros g Hg. apply filter_In in Hg as [Hg Hj]. apply Nat.eqb_eq in Hj.
-    pose proof (group_keys_from_edges ix es es [] (fun e H => H) (Forall_nil _)) as K.
-    rewrite Forall_forall in K. destruct (K g Hg) as (e & He & Ek).
-    assert (S1 : gsrc g = fst (ix (esrc e))) by (unfold gsrc; rewrite <- Ek; reflexivity).
-    assert (S2 : gsv g = esv e) by (unfold gsv; rewrite <- Ek; reflexivity).
-    assert (S3 : fst (ix (etgt e)) = j) by (unfold gtgt in Hj; rewrite <- Ek in Hj; exact Hj).
-    unfold svf. destruct (find _ es) as [e'|] eqn:F.
-    - apply find_some in F as [He' P]. apply andb_true_iff in P as [P1 P2]. apply Nat.eqb_eq in P1, P2.
-      rewrite S2. destruct (wf_edges c e WF He) as [A1 A2]. destruct (wf_edges c e' WF He') as [B1 B2].
-      apply (ssv_edges c e e' SSV He He').
-      + apply (same_vector_same_class vec c vn rs _ _ CA A1 B1). fold ix. congruence.
-      + apply (same_vector_same_class vec c vn rs _ _ CA A2 B2). fold ix. congruence.
-    - exfalso. pose proof (find_none _ _ F e He) as P. cbn beta in P.
-      rewrite S1, S3, !Nat.eqb_refl in P. discriminate.
-  Qed.
-
-  Lemma ml_facts : Forall aligned_m ml /\ Forall (fun m => msv m = svf (msrc m)) ml.
-  Proof.
-    split.
-    - apply (gM_fold bool orb false orb_assoc' orb_comm' orb_false_l' (fun _ _ => false) L [] (Forall_nil _) L_aligned).
-    - apply merge_fold_sv; [constructor|apply L_sv].
+    apply (gM_fold bool orb false orb_assoc' orb_comm' orb_false_l' (fun _ _ _ => false) L [] (Forall_nil _) L_aligned).
   Qed.
 
   Definition ssize_of (m : mrg) : nat := length (members vn (msrc m)).
@@ -1053,13 +1007,13 @@ Section Compose.
 
   Lemma hits_into : existsb (hits i) ml = existsb (into n) es.
   Proof.
-    destruct ml_facts as [MA _].
+    pose proof ml_aligned as MA.
     rewrite !existsb_gsum. unfold bG.
-    transitivity (gM bool orb false (fun _ => thit i) ml).
+    transitivity (gM bool orb false (fun _ _ => thit i) ml).
     { unfold gM. apply gsum_ext. intros m Hm. rewrite Forall_forall in MA. specialize (MA m Hm).
       unfold hits. rewrite <- mem_gsum. unfold mtriples. rewrite zip3_targets by apply MA. reflexivity. }
-    destruct (gM_fold bool orb false orb_assoc' orb_comm' orb_false_l' (fun _ => thit i) L [] (Forall_nil _) L_aligned) as [_ E].
-    change ml with (fold_left add_merge L []). rewrite E. cbn [gM gsum orb]. unfold L.
+    destruct (gM_fold bool orb false orb_assoc' orb_comm' orb_false_l' (fun _ _ => thit i) L [] (Forall_nil _) L_aligned) as [_ E].
+    change ml with (fold_left (add_merge true) L []). rewrite E. cbn [gM gsum orb]. unfold L.
     rewrite (gsum_filter bool orb false orb_false_l').
     transitivity (gG bool orb false (fun key tr => if snd key =? j then thit i tr else false) groups).
     { unfold gG. apply gsum_ext. intros g _. rewrite (gsum_if bool orb false orb_false_l'). reflexivity. }
@@ -1070,24 +1024,20 @@ Section Compose.
 
   Lemma msum_spec : msum ml sval_of i = qsum (map (edge_term c st) (filter (into n) es)).
   Proof.
-    destruct ml_facts as [MA MS].
-    pose (psi := fun sj => tval i (fun s => srcval c st (nth s (members vn sj) 0%nat) (svf sj))).
+    pose (psi := fun sj sv => tval i (fun s => srcval c st (nth s (members vn sj) 0%nat) sv)).
     transitivity (gM Qc Qcplus 0 psi ml).
-    { unfold gM. clear MA. induction ml as [|m l IH]; cbn [msum gsum]; [reflexivity|].
-      inversion MS as [|? ? Hm Hl]; subst. rewrite IH by exact Hl. f_equal.
-      rewrite tsum_gsum. unfold qG, psi, sval_of. rewrite Hm. reflexivity. }
+    { unfold gM. induction ml as [|m l IH]; cbn [msum gsum]; [reflexivity|].
+      rewrite IH. f_equal. rewrite tsum_gsum. reflexivity. }
     destruct (gM_fold Qc Qcplus 0 Qcplus_assoc' Qcplus_comm' Qcplus_0_l' psi L [] (Forall_nil _) L_aligned) as [_ E].
-    change ml with (fold_left add_merge L []). rewrite E. cbn [gM gsum]. rewrite Qcplus_0_l'.
-    pose (phi := fun (key : gkey) => tval i (fun s => srcval c st (nth s (members vn (fst (fst key))) 0%nat) (snd (fst key)))).
-    transitivity (gsum Qcplus 0 (fun g => gsum Qcplus 0 (phi (gk g)) (gtriples g)) L).
-    { apply gsum_ext. intros g Hg. pose proof L_sv as SV. rewrite Forall_forall in SV. specialize (SV g Hg).
-      unfold psi, phi. unfold gsv, gsrc in SV. unfold gsrc. rewrite <- SV. reflexivity. }
+    change ml with (fold_left (add_merge true) L []). rewrite E. cbn [gM gsum]. rewrite Qcplus_0_l'.
+    pose (phi := fun (key : gkey) => psi (fst (fst key)) (snd (fst key))).
+    change (gsum Qcplus 0 (fun g => gsum Qcplus 0 (phi (gk g)) (gtriples g)) L = qsum (map (edge_term c st) (filter (into n) es))).
     unfold L. rewrite (gsum_filter Qc Qcplus 0 Qcplus_0_l').
     transitivity (gG Qc Qcplus 0 (fun key tr => if snd key =? j then phi key tr else 0) groups).
     { unfold gG. apply gsum_ext. intros g _. rewrite (gsum_if Qc Qcplus 0 Qcplus_0_l'). reflexivity. }
     unfold groups. rewrite (gG_group_edges Qc Qcplus 0 Qcplus_assoc' Qcplus_comm' Qcplus_0_l').
     rewrite qsum_map_gsum. unfold qG. rewrite (gsum_filter Qc Qcplus 0 Qcplus_0_l').
-    apply gsum_ext. intros e He. unfold ekey, etriple, phi, tval, into, edge_term. cbn [fst snd].
+    apply gsum_ext. intros e He. unfold ekey, etriple, phi, psi, tval, into, edge_term. cbn [fst snd].
     rewrite <- (tgt_match e He). destruct (wf_edges c e WF He) as [Hs _].
     destruct (F_mem (esrc e) Hs) as [_ Hm]. fold ix in Hm. rewrite Hm.
     destruct (fst (ix (etgt e)) =? j); [|reflexivity]. cbn [andb]. reflexivity.
@@ -1097,19 +1047,18 @@ Section Compose.
     all_some (map (fun m => contrib tsize (ssize_of m) m (sval_of m)) ml) = Some cs ->
     input_of cs (crdef (node_cls c n)) i = spec_input c st n.
   Proof.
-    intros tsize cs H. destruct ml_facts as [MA _].
+    intros tsize cs H. pose proof ml_aligned as MA.
     rewrite (input_is_edge_sum tsize ssize_of sval_of ml cs _ i MA H).
     rewrite spec_input_alt. fold es. rewrite hits_into, msum_spec. reflexivity.
   Qed.
 End Compose.
 
 (* Whenever the compilation modelled by Impl does not raise, it computes the vector field of the edge list — for every
-   circuit whose class pairs each use a single source variable (D3 excluded), vectorized or not, any number of classes,
-   units and edges, parallel edges, self-connections, weightless edges, any order of the nodes and edges. *)
-Theorem impl_sound : forall vec c st r, wf c = true -> single_source_var c = true ->
-  impl vec c st = Some r -> r = spec c st.
+   well-formed circuit, vectorized or not, any number of classes, units and edges, parallel edges, self-connections,
+   weightless edges, several source variables per class pair (D59), any order of the nodes and edges. *)
+Theorem impl_sound : forall vec c st r, wf c = true -> impl vec c st = Some r -> r = spec c st.
 Proof.
-  intros vec c st r WF SSV H. unfold impl, impl_gen, compile in H.
+  intros vec c st r WF H. unfold impl, impl_gen, compile in H.
   destruct (cache_all [] (keys vec c) 0) as [vn rs] eqn:CA. cbn [cvn cidx cgroups] in H.
   destruct (existsb (vn_err c) vn); [discriminate|].
   destruct (all_some _) as [rv|] eqn:AS in H; [|discriminate]. inversion H; subst r. clear H.
@@ -1124,15 +1073,22 @@ Proof.
   destruct (all_some _) as [cs|] eqn:AC in V; [|discriminate]. inversion V as [V']. clear V.
   pose proof IX as IX2. unfold idx_of in IX2. injection IX2 as Ej Ei. rewrite Ej, Ei. rewrite <- V'.
   rewrite nth_map_seq by exact Hi. rewrite Hm.
-  pose proof (node_input vec c st vn rs CA WF SSV n Hn) as NI. rewrite IX in NI. cbn [fst snd] in NI.
+  pose proof (node_input vec c st vn rs CA WF n Hn) as NI. rewrite IX in NI. cbn [fst snd] in NI.
   eapply NI. exact AC.
 Qed.
 
 (* vectorize=True and vectorize=False give the same vector field whenever neither raises *)
-Theorem vec_equals_nonvec : forall c st r1 r2, wf c = true -> single_source_var c = true ->
+Theorem vec_equals_nonvec : forall c st r1 r2, wf c = true ->
   impl true c st = Some r1 -> impl false c st = Some r2 -> r1 = r2.
 Proof.
-  intros c st r1 r2 W S H1 H2. rewrite (impl_sound _ _ _ _ W S H1), (impl_sound _ _ _ _ W S H2). reflexivity.
+  intros c st r1 r2 W H1 H2. rewrite (impl_sound _ _ _ _ W H1), (impl_sound _ _ _ _ W H2). reflexivity.
+Qed.
+
+(* the full statement up to the two loud classes: Impl either raises or is the vector field of the edge list *)
+Theorem full_up_to_err : forall vec c st, wf c = true -> impl vec c st = None \/ impl vec c st = Some (spec c st).
+Proof.
+  intros vec c st W. destruct (impl vec c st) as [r|] eqn:E; [right|left; reflexivity].
+  rewrite (impl_sound _ _ _ _ W E). reflexivity.
 Qed.
 
 (* THE GAP that remains for the end-to-end statement: the two loud classes are excluded by their guards.
@@ -1145,10 +1101,10 @@ Definition no_err_statement : Prop := forall vec c st, wf c = true -> no_constan
 
 Theorem guarded_from_no_err : no_err_statement -> guarded_statement.
 Proof.
-  intros NE c st W G _. unfold guard in G. apply andb_true_iff in G as [G G3]. apply andb_true_iff in G as [G1 G2].
+  intros NE c st W G _. unfold guard in G. apply andb_true_iff in G as [G1 G3].
   split.
-  - destruct (impl true c st) as [r|] eqn:E; [rewrite (impl_sound _ _ _ _ W G2 E); reflexivity|].
+  - destruct (impl true c st) as [r|] eqn:E; [rewrite (impl_sound _ _ _ _ W E); reflexivity|].
     exfalso. exact (NE true c st W G1 G3 E).
-  - destruct (impl false c st) as [r|] eqn:E; [rewrite (impl_sound _ _ _ _ W G2 E); reflexivity|].
+  - destruct (impl false c st) as [r|] eqn:E; [rewrite (impl_sound _ _ _ _ W E); reflexivity|].
     exfalso. exact (NE false c st W G1 G3 E).
 Qed.
